@@ -166,12 +166,6 @@ func (b *backend) propFindFile(propfind *internal.PropFind, fi *FileInfo) (*inte
 			Length: fi.Size,
 		})
 
-		if !fi.ModTime.IsZero() {
-			props[internal.GetLastModifiedName] = internal.PropFindValue(&internal.GetLastModified{
-				LastModified: internal.Time(fi.ModTime),
-			})
-		}
-
 		if fi.MIMEType != "" {
 			props[internal.GetContentTypeName] = internal.PropFindValue(&internal.GetContentType{
 				Type: fi.MIMEType,
@@ -183,6 +177,13 @@ func (b *backend) propFindFile(propfind *internal.PropFind, fi *FileInfo) (*inte
 				ETag: internal.ETag(fi.ETag),
 			})
 		}
+	}
+
+	// Collections have a modification time as well
+	if !fi.ModTime.IsZero() {
+		props[internal.GetLastModifiedName] = internal.PropFindValue(&internal.GetLastModified{
+			LastModified: internal.Time(fi.ModTime),
+		})
 	}
 
 	return internal.NewPropFindResponse(fi.Path, propfind, props)
